@@ -138,6 +138,11 @@ pub fn run(ctx: &mut Ctx) {
         go!(&s);
         let s = [b"GET / HTTP/1.1\r\nn", &[b][..], b": x\r\n\r\n"].concat();
         go!(&s);
+        // every byte at either end of a value (only SP, HT, CR, LF may be stripped), alone and next to OWS
+        let s = [b"GET / HTTP/1.1\r\nn:", &[b][..], b"v\r\nm: w", &[b][..], b"\r\n\r\n"].concat();
+        go!(&s);
+        let s = [b"GET / HTTP/1.1\r\nn: ", &[b][..], b" v \t", &[b][..], b" \r\n\r\n"].concat();
+        go!(&s);
         let s = [b"GE", &[b][..], b"T /", &[b][..], b" HTTP/1.1\r\n\r\n"].concat();
         go!(&s);
     }
